@@ -215,6 +215,94 @@ fn crash_info(s: &McState) -> (String, String) {
     (b01(bad).to_string(), fnv(&text))
 }
 
+/// C19: the battery of library predicates (same list as coq/theories/Model/PredInst.v), evaluated with the real
+/// anysystem::mc::predicates; '1' = Err / Some / true, '0' = Ok / None / false, 'x' = the predicate panicked
+pub fn pred_battery(n0: u64, n1: u64, s: &McState) -> String {
+    use anysystem::logger::LogEntry;
+    use anysystem::mc::predicates::{collects, goals, invariants, prunes};
+    use std::collections::HashSet;
+    let d0 = "plain".to_string();
+    let d1 = "{\"k\": \"v\"}".to_string();
+    let is_recv = |e: &LogEntry| matches!(e, LogEntry::McMessageReceived { .. });
+    let is_fired = |e: &LogEntry| matches!(e, LogEntry::McTimerFired { .. });
+    let recv_by = |e: &LogEntry, p: &String| matches!(e, LogEntry::McMessageReceived { dst, .. } if dst == p);
+    let mut out = String::new();
+    let mut inv = |mut f: anysystem::mc::InvariantFn| {
+        let r = std::panic::catch_unwind(std::panic::AssertUnwindSafe(|| f(s).is_err()));
+        out.push(match r { Ok(true) => '1', Ok(false) => '0', Err(_) => 'x' });
+    };
+    for d in [0u64, 1, 2, 3, 5] { inv(invariants::state_depth(d)); }
+    for d in [1u64, 2, 4, 8] { inv(invariants::state_depth_current_run(d)); }
+    let set = |v: Vec<&String>| -> HashSet<String> { v.into_iter().cloned().collect() };
+    inv(invariants::received_messages(nname(n0), pname(0), set(vec![])));
+    inv(invariants::received_messages(nname(n0), pname(0), set(vec![&d0])));
+    inv(invariants::received_messages(nname(n0), pname(0), set(vec![&d0, &d1])));
+    inv(invariants::received_messages(nname(n1), pname(1), set(vec![&d1])));
+    inv(invariants::received_messages(nname(n1), pname(0), set(vec![&d0])));
+    drop(inv);
+    let mut opt = |mut f: Box<dyn FnMut(&McState) -> Option<String>>| {
+        let r = std::panic::catch_unwind(std::panic::AssertUnwindSafe(|| f(s).is_some()));
+        out.push(match r { Ok(true) => '1', Ok(false) => '0', Err(_) => 'x' });
+    };
+    for n in [0usize, 1, 2] {
+        opt(goals::got_n_local_messages(nname(n0), pname(0), n));
+        opt(goals::got_n_local_messages(nname(n1), pname(1), n));
+    }
+    opt(goals::no_events());
+    opt(goals::always_ok());
+    for d in [0u64, 2, 4] { opt(goals::depth_reached(d)); }
+    for n in [1usize, 2, 3] {
+        opt(goals::event_happened_n_times_current_run(is_recv, n));
+        opt(goals::event_happened_n_times_current_run(is_fired, n));
+    }
+    for d in [0u64, 2, 4] { opt(prunes::state_depth(d)); }
+    for k in [0u64, 1, 2] { opt(prunes::sent_messages_limit(k)); }
+    for l in [0usize, 1, 3] { opt(prunes::events_limit(is_recv, l)); }
+    for l in [0usize, 1, 2] { opt(prunes::events_limit_per_proc(recv_by, vec![pname(0), pname(1)], l)); }
+    for n in [1usize, 2] { opt(prunes::event_happened_n_times_current_run(is_recv, n)); }
+    opt(prunes::proc_permutations(&[pname(0), pname(1)]));
+    opt(prunes::proc_permutations(&[pname(1), pname(0)]));
+    opt(prunes::proc_permutations(&[pname(0), pname(1), pname(2)]));
+    opt(prunes::proc_permutations(&[pname(2), pname(0)]));
+    drop(opt);
+    let mut col = |mut f: anysystem::mc::CollectFn| {
+        let r = std::panic::catch_unwind(std::panic::AssertUnwindSafe(|| f(s)));
+        out.push(match r { Ok(true) => '1', Ok(false) => '0', Err(_) => 'x' });
+    };
+    for d in [0u64, 2] { col(collects::state_depth(d)); }
+    col(collects::no_events());
+    col(collects::got_n_local_messages(nname(n0), pname(0), 1));
+    col(collects::events_limit(is_fired, 0));
+    col(collects::event_happened_n_times_current_run(is_fired, 1));
+    drop(col);
+    // combinators and defaults
+    let b = |r: std::thread::Result<bool>| match r { Ok(true) => '1', Ok(false) => '0', Err(_) => 'x' };
+    let mut f1 = invariants::all_invariants(vec![invariants::state_depth(2), invariants::state_depth_current_run(4)]);
+    out.push(b(std::panic::catch_unwind(std::panic::AssertUnwindSafe(|| f1(s).is_err()))));
+    let mut f2 = goals::any_goal(vec![goals::no_events(), goals::depth_reached(3)]);
+    out.push(b(std::panic::catch_unwind(std::panic::AssertUnwindSafe(|| f2(s).is_some()))));
+    let mut f3 = goals::all_goals(vec![goals::no_events(), goals::depth_reached(3)]);
+    out.push(b(std::panic::catch_unwind(std::panic::AssertUnwindSafe(|| f3(s).is_some()))));
+    let mut f4 = prunes::any_prune(vec![prunes::state_depth(4), prunes::sent_messages_limit(1)]);
+    out.push(b(std::panic::catch_unwind(std::panic::AssertUnwindSafe(|| f4(s).is_some()))));
+    let mut f5 = collects::any_collect(vec![collects::state_depth(3), collects::no_events()]);
+    out.push(b(std::panic::catch_unwind(std::panic::AssertUnwindSafe(|| f5(s)))));
+    let mut f6 = collects::all_collects(vec![collects::state_depth(1), collects::no_events()]);
+    out.push(b(std::panic::catch_unwind(std::panic::AssertUnwindSafe(|| f6(s)))));
+    // the crate's defaults are private functions; StrategyConfig::default() carries them
+    let mut dflt = StrategyConfig::default();
+    out.push(if dflt.verif_default_invariant_is_err(s) { '1' } else { '0' });
+    out.push(if dflt.verif_default_goal_is_some(s) { '1' } else { '0' });
+    out.push(if dflt.verif_default_prune_is_some(s) { '1' } else { '0' });
+    out.push(if dflt.verif_default_collect(s) { '1' } else { '0' });
+    out
+}
+
+thread_local! {
+    /// nodes of processes 0 and 1 of the scenario being run (for the predicate battery)
+    pub static BATTERY_NODES: std::cell::Cell<(u64, u64)> = std::cell::Cell::new((0, 0));
+}
+
 /// one line describing a state: digest form, or the full canonical text in verbose mode
 pub fn state_line(ps: &PredSpec, s: &McState, verbose: bool) -> String {
     if verbose {
@@ -222,7 +310,7 @@ pub fn state_line(ps: &PredSpec, s: &McState, verbose: bool) -> String {
     } else {
         let (x, k) = crash_info(s);
         format!(
-            "d={} core={} red={} eqp={} tr={} c={} v={} x={} k={}",
+            "d={} core={} red={} eqp={} tr={} c={} v={} x={} k={} pb={}",
             s.depth,
             fnv(&c_state_core(s)),
             fnv(&c_state_red(s)),
@@ -231,7 +319,11 @@ pub fn state_line(ps: &PredSpec, s: &McState, verbose: bool) -> String {
             b01(e_collect(&ps.collect, s)),
             verdict_text(ps, s),
             x,
-            k
+            k,
+            {
+                let (n0, n1) = BATTERY_NODES.with(|c| c.get());
+                pred_battery(n0, n1, s)
+            }
         )
     }
 }
@@ -392,6 +484,10 @@ pub fn run(sc: &Scenario) -> String {
                 let debug = t.bool();
                 let fuel = t.u64();
                 writeln!(out, "{}", kw).unwrap();
+                {
+                    let node_of = |p: u64| spec.procs.iter().find(|x| x.0 == p).map(|x| x.1).unwrap_or(0);
+                    BATTERY_NODES.with(|c| c.set((node_of(0), node_of(1))));
+                }
                 if checker.is_none() {
                     let sys = spec.build(12345);
                     let mc = ModelChecker::new(&sys);
